@@ -14,8 +14,20 @@ S = P(1)
 LEN = Len(S)
 
 
+def _eqc(case, a, b):
+    """equal as terms, or equal once the integer points the case identifies are identified (`n = len` in the case `at == len`)"""
+    if a == b:
+        return True
+    if case is None:
+        return False
+    try:
+        return case.norm(a) == case.norm(b)
+    except Exception:
+        return False
+
+
 def _view_is(root, off, cnt):
-    def chk(t):
+    def chk(t, case=None):
         v = views.view(t)
         if v is None:
             return "result %s is not a recognisable view" % sym.show(t)
@@ -23,7 +35,7 @@ def _view_is(root, off, cnt):
             v = ("view", v[1], Int(0), Len(v[1]), None)
         if v[0] == "empty":
             return "result is the static empty slice, expected view(%s,%s,%s)" % (sym.show(root), sym.show(off), sym.show(cnt))
-        if v[1] != root or v[2] != off or v[3] != cnt:
+        if v[1] != root or not _eqc(case, v[2], off) or not _eqc(case, v[3], cnt):
             return "expected view(%s, off=%s, n=%s), got view(%s, off=%s, n=%s)" % (
                 sym.show(root), sym.show(off), sym.show(cnt), sym.show(v[1]), sym.show(v[2]), sym.show(v[3]))
         return None
@@ -31,35 +43,35 @@ def _view_is(root, off, cnt):
 
 
 def _whole(root):
-    def chk(t):
+    def chk(t, case=None):
         v = views.view(t)
         if v == ("whole", root):
             return None
-        if v and v[0] == "view" and v[1] == root and v[2] == Int(0) and v[3] == Len(root):
+        if v and v[0] == "view" and v[1] == root and _eqc(case, v[2], Int(0)) and _eqc(case, v[3], Len(root)):
             return None
         return "expected the whole input slice, got %s" % sym.show(t)
     return chk
 
 
-def _empty(t):
+def _empty(t, case=None):
     v = views.view(t)
     if v == ("empty",):
         return None
-    if v and v[0] == "view" and v[3] == Int(0):
+    if v and v[0] == "view" and _eqc(case, v[3], Int(0)):
         return None
     return "expected an empty slice, got %s" % sym.show(t)
 
 
 def ret(chk):
-    return lambda path: chk(path.value)
+    return lambda path, case: chk(path.value, case)
 
 
 def some(chk):
-    def f(path):
+    def f(path, case):
         t = path.value
         if t[0] != "agg" or not t[1].endswith("Option::Some#1"):
             return "expected Some(..), got %s" % sym.show(t)
-        return chk(t[2])
+        return chk(t[2], case)
     return f
 
 
@@ -71,11 +83,11 @@ def none(path):
 
 
 def pair(c0, c1):
-    def f(path):
+    def f(path, case):
         t = path.value
         if t[0] != "agg" or t[1] != "tuple" or len(t) != 4:
             return "expected a pair, got %s" % sym.show(t)
-        return c0(t[2]) or c1(t[3])
+        return c0(t[2], case) or c1(t[3], case)
     return f
 
 
